@@ -118,6 +118,11 @@ def build_world(tmpdir, small=False):
         ["chromosome", "start", "end", "gene"],
     )
     W["ga2"] = GA.from_rows([("chr1", 40, 70), ("chr1", 65, 66), ("chr1", 190, 300), ("chr3", 0, 5)], ["chromosome", "start", "end"])
+    # arrays built in memory without any metadata, one per naming style (chrX / X)
+    W["cnr_nometa"] = CNA.from_rows(rows, cols)
+    W["cnr_plain_nometa"] = CNA.from_rows([(r[0][3:],) + tuple(r[1:]) for r in rows], cols)
+    # the targets in another row order (as a BED file may list them), and not renumbered
+    W["targets_unsorted"] = GA(W["targets"].data.iloc[::-1])
     # overlapping regions on opposite strands (merge / flatten combine the strand column; writers add what a format needs)
     W["ga_s"] = GA.from_rows(
         [("chr1", 0, 100, "a", "+"), ("chr1", 50, 150, "b", "-"), ("chr1", 200, 300, "c", "+"), ("chr1", 250, 260, "d", "+"), ("chr2", 5, 9, "e", "-")],
@@ -241,6 +246,9 @@ OPS = {
     "write-bed": lambda W: _written(W, "ga_s", "bed"),
     "write-text": lambda W: _written(W, "ga1", "text"),
     "write-tab": lambda W: _written(W, "cns", "tab"),
+    "guess-xx-nometa": lambda W: W["cnr_nometa"].guess_xx(),
+    "guess-xx-plain-nometa": lambda W: W["cnr_plain_nometa"].guess_xx(),
+    "antitarget-guess-unsorted": lambda W: antitarget.do_antitarget(W["targets_unsorted"], None, 6000, 1500),
     "by-arm": lambda W: [(c, a) for c, a in W["cnr"].by_arm()],
     "by-gene": lambda W: [(g, a) for g, a in W["cnr"].by_gene(W["ignore"])],
     "squash-genes": lambda W: W["cnr"].squash_genes(ignore=W["ignore"]),
@@ -257,7 +265,7 @@ CORE = [o for o in OP_NAMES if o not in HEAVY]
 STATEFUL = [
     "call-filters-ci-cn", "call-filters-sem-ampdel", "by-gene", "squash-genes", "gene-intervals", "fix-all", "segmetrics-all",
     "segment-hmm", "segment-haar-p2", "segment-none-skiplow", "genemetrics-seg", "bintest", "export-vcf-cnarr", "center-median",
-    "ga-flatten", "target", "ga-merge-stranded", "ga-merge-s", "write-interval", "genemetrics-seg-maleref",
+    "ga-flatten", "target", "ga-merge-stranded", "ga-merge-s", "write-interval", "genemetrics-seg-maleref", "guess-xx-nometa", "guess-xx-plain-nometa",
 ]
 RNG_STATES = ("seed0", "seed12345", "seed0+17")
 
@@ -655,7 +663,7 @@ def run_writers(case, ctx):
 
 
 MANIFEST = {
-    "text": "Explicit-state search over call histories on one shared world of argument objects (70 operations covering the "
+    "text": "Explicit-state search over call histories on one shared world of argument objects (73 operations covering the "
     "pipeline steps and array methods the property names): every history of length 1 (x3 global RNG states) and 2, plus "
     "3- and 4-step histories over the most stateful operations, each replayed from a pristine forked process; after every "
     "step the fingerprint of all arguments and files must be unchanged and the result must equal the operation's first-call "
